@@ -280,3 +280,53 @@ Qed.
 
 Lemma field_name_fold n : starts_uu n = false -> equal_fold (field_name n) n = true.
 Proof. intros H. rewrite field_name_plain by exact H. apply equal_fold_eq. apply lower_title. Qed.
+
+(** ** decidable equality of selections is sound *)
+Lemma opt_name_eqb_eq (x y : option name) :
+  match x, y with Some p, Some q => bytes_eqb p q | None, None => true | _, _ => false end = true -> x = y.
+Proof.
+  destruct x, y; try discriminate; intros H; [apply bytes_eqb_true in H; subst|]; reflexivity.
+Qed.
+
+Lemma selection_ind' (P : selection -> Prop) :
+  (forall a f sub, Forall P sub -> P (SField a f sub)) ->
+  (forall c sub, Forall P sub -> P (SInline c sub)) ->
+  (forall f c body, Forall P body -> P (SSpread f c body)) ->
+  forall s, P s.
+Proof.
+  intros H1 H2 H3. fix IH 1. intros [a f sub|c sub|f c body].
+  - apply H1. induction sub as [|x r IHr]; constructor; [apply IH | exact IHr].
+  - apply H2. induction sub as [|x r IHr]; constructor; [apply IH | exact IHr].
+  - apply H3. induction body as [|x r IHr]; constructor; [apply IH | exact IHr].
+Qed.
+
+Lemma sels_go_eq (l : list selection) :
+  Forall (fun x => forall y, selection_eqb x y = true -> x = y) l ->
+  forall l',
+    (fix go (x y : list selection) {struct x} : bool :=
+       match x, y with
+       | [], [] => true
+       | p :: ps, q :: qs => selection_eqb p q && go ps qs
+       | _, _ => false
+       end) l l' = true -> l = l'.
+Proof.
+  induction 1 as [|p ps Hp Hps IHl]; intros [|q qs]; try discriminate; intros H; [reflexivity|].
+  apply andb_true_iff in H as [H1 H2]. f_equal; [apply Hp; exact H1 | apply IHl; exact H2].
+Qed.
+
+Lemma selection_eqb_eq : forall a b, selection_eqb a b = true -> a = b.
+Proof.
+  induction a as [a1 f1 s1 IH|c1 s1 IH|f1 c1 s1 IH] using selection_ind';
+    intros [a2 f2 s2|c2 s2|f2 c2 s2]; simpl; try discriminate; intros H.
+  - apply andb_true_iff in H as [H H3]. apply andb_true_iff in H as [H1 H2].
+    apply opt_name_eqb_eq in H1. apply bytes_eqb_true in H2. subst. f_equal. apply (sels_go_eq _ IH _ H3).
+  - apply andb_true_iff in H as [H1 H3]. apply opt_name_eqb_eq in H1. subst. f_equal. apply (sels_go_eq _ IH _ H3).
+  - apply andb_true_iff in H as [H H3]. apply andb_true_iff in H as [H1 H2].
+    apply bytes_eqb_true in H1. apply bytes_eqb_true in H2. subst. f_equal. apply (sels_go_eq _ IH _ H3).
+Qed.
+
+Lemma sels_eqb_eq x y : sels_eqb x y = true -> x = y.
+Proof.
+  revert y. induction x as [|p ps IH]; intros [|q qs]; simpl; try discriminate; intros H; [reflexivity|].
+  apply andb_true_iff in H as [H1 H2]. f_equal; [apply selection_eqb_eq; exact H1 | apply IH; exact H2].
+Qed.
